@@ -94,3 +94,24 @@ Example C10_head_exec_example_fails :
       end
   end.
 Proof. vm_compute. exact I. Qed.
+
+(** body goals: the Put instructions of a goal build exactly its arguments renamed
+    by the frame, and opCall arrives at the goal's predicate with them and with the
+    rest of the clause as continuation -- same goals, same order, same sharing *)
+Theorem C10_body_arg_builds_instance :
+  forall t cvs cvs1 code, compile_body_arg t cvs = (cvs1, code) ->
+    forall (ext : list Z) vb args astack, run_put code vb args astack = Some ((args ++ [inst (cvs1 ++ ext)%list vb t])%list, astack).
+Proof. exact all_body_sem. Qed.
+
+Theorem C10_body_goal_is_call :
+  forall (vs : list Z) (k : cont) (cutp : Z) g cvs cvs1 pcode, compile_pred1 g cvs = Some (cvs1, pcode) -> g <> Atom "!" ->
+    forall (ext : list Z) f rest e st, poisoned e = false ->
+      exec (List.length pcode + f) (pcode ++ rest)%list vs k [] [] e cutp st =
+      match g with
+      | Var v => arrive f "call" [inst (cvs1 ++ ext)%list vs g] (KExec rest vs k cutp) e st
+      | Atom a => arrive f a [] (KExec rest vs k cutp) e st
+      | Cmp name gargs => arrive f name (map (inst (cvs1 ++ ext)%list vs) gargs) (KExec rest vs k cutp) e st
+      | _ => (PErr EFuel, st)
+      end.
+Proof. exact body_goal_is_call. Qed.
+Print Assumptions C10_body_goal_is_call.
